@@ -119,6 +119,9 @@ func checkC16(c C16Case) (f *report.Failure, ntok int, sawErr bool) {
 		if n.Val == "" {
 			return report.Failf("reconstruct", "on %q: empty token of type %v at byte %d", s, n.Typ, cur), ntok, sawErr
 		}
+		if r, _ := utf8.DecodeRuneInString(s[cur:]); !canStartToken(r) {
+			return report.Failf("token-from-illegal-character", "on %q: token %d (%v %q) starts with %q, a character that cannot start a token (the lexer must report a lexical error there)", s, ntok, n.Typ, n.Val, r), ntok, sawErr
+		}
 		if !strings.HasPrefix(s[cur:], n.Val) {
 			return report.Failf("reconstruct", "on %q: token %d is %q but the input continues with %q", s, ntok, n.Val, s[cur:]), ntok, sawErr
 		}
@@ -260,7 +263,24 @@ func TestC16(t *testing.T) {
 	// (b) random strings: hostile pool, random runes, raw bytes
 	st.Rapid(t, "random-strings", cfg.N(40000, 3000000), func(rt *rapid.T) {
 		var b []byte
-		switch rapid.IntRange(0, 3).Draw(rt, "mode") {
+		switch rapid.IntRange(0, 4).Draw(rt, "mode") {
+		case 4:
+			// aliasing runes: code points whose low byte is an ASCII symbol, quote,
+			// letter or digit (truncating conversions, table lookups)
+			n := rapid.IntRange(1, 10).Draw(rt, "n")
+			for i := 0; i < n; i++ {
+				if rapid.IntRange(0, 2).Draw(rt, "plain") == 0 {
+					b = append(b, rapid.SampledFrom([]string{"a", " ", ":", "b", "5", "(", ")"}).Draw(rt, "ascii")...)
+					continue
+				}
+				low := rapid.SampledFrom([]byte(`()[]{}:+=><~^-"'/*?\ a5_`)).Draw(rt, "low")
+				hi := rapid.IntRange(1, 0x10FF).Draw(rt, "hi")
+				r := rune(hi)<<8 | rune(low)
+				if r >= 0xD800 && r <= 0xDFFF {
+					r += 0x1000
+				}
+				b = utf8.AppendRune(b, r)
+			}
 		case 0:
 			b = rapid.SliceOfN(rapid.Byte(), 0, 40).Draw(rt, "bytes")
 		case 1:
